@@ -112,7 +112,12 @@ def judge(prop, w, hist, accepted_tid, expect, drained_obs):
         p = w.fsm.protocol
         if p is not None and p.transport is not None and p.transport.connected:
             sent, recv = c18.counted(p.transport)
-            for side, want, got in (('send', sent, p.msg_sent_stat), ('receive', recv, p.msg_recv_stat)):
+            sides = [('send', sent, p.msg_sent_stat)]
+            if not p.transport.disconnecting:
+                # (once the agent has closed, frames that stood behind the session-ending message in the same TCP segment are in the
+                # delivered stream but were - rightly, see 75fbd43 - never read: the stream is no reference for the receive side then)
+                sides.append(('receive', recv, p.msg_recv_stat))
+            for side, want, got in sides:
                 for k in sorted(c18.ZERO):
                     if got.get(k) != want[k]:
                         v.append(('C18|deferred|%s %s off by %+d' % (side, k, got.get(k, 0) - want[k]),
